@@ -429,6 +429,19 @@ func (w *World) CrashImage(di int, cs *CrashSpec) (img []byte, stack []MFlush) {
 		}
 		img = append(img, junk...)
 	}
+	// The oracle is a function of the surviving image, not of how it came
+	// about: when the bytes already in the file behind the write position
+	// (the unflushed tail of an earlier process that a re-open or a
+	// recovery stepped back over) happen to equal the missing rest of the
+	// torn write, the image is the very image of the crash point one write
+	// later, and that is what must be recovered from it.
+	if inFlight != nil && inFlight.Kind == 'W' && cs.Torn > 0 {
+		full, posFull, _ := imageAt(d, cs.Writes+1, 0)
+		if len(img) >= len(full) && bytes.Equal(img[:len(full)], full) {
+			w.probe("crash-torn-write-completed-by-stale-tail")
+			pos = posFull
+		}
+	}
 	return img, w.Files[di].StackAt(pos)
 }
 
